@@ -493,6 +493,25 @@ pub fn trace_json(opts: &Opts, trace: &[Ev]) -> serde_json::Value {
     })
 }
 
+/// A spelling for a LONG dictionary word: the inherent vowel is written as `o` between two consonant letters that are
+/// not joined by a hasanta (never after the last letter); kept only if the independent oracle confirms that the
+/// dictionary word is a direct candidate of the spelling.
+pub fn romanise_long(word: &str) -> Option<String> {
+    let cs: Vec<char> = word.chars().collect();
+    let mut sp = String::new();
+    for (i, c) in cs.iter().enumerate() {
+        sp.push_str(rom_char(*c)?);
+        let next = cs.get(i + 1).copied();
+        if model::is_consonant(*c) && next.map(model::is_consonant).unwrap_or(false) {
+            sp.push('o');
+        }
+    }
+    if crate::phon::is_direct_dict(&sp, word) {
+        Some(sp)
+    } else {
+        None
+    }
+}
 pub fn rom_char(c: char) -> Option<&'static str> {
     Some(match c {
         '\u{0985}' => "o", '\u{0986}' => "a", '\u{0987}' => "i", '\u{0988}' => "i", '\u{0989}' => "u", '\u{098A}' => "u", '\u{098B}' => "rri",
